@@ -20,7 +20,7 @@ func tolDist(d float64) float64 { return math.Max(1e-3, 1e-6*math.Abs(d)) }
 func geoLats(thorough bool) []float64 {
 	l := []float64{-90, -89.999999, -89.999, -60, -1e-9, 0, 1e-9, 33, 60, 89.999, 89.999999, 90}
 	if thorough {
-		l = append(l, -89.99999999, -75, -45, -10, 10, 45, 75, 85, 89.99999999, 1e-300)
+		l = append(l, -89.99999999, -89.9, -75, -45, -30, -10, 10, 30, 45, 75, 85, 89.9, 89.99999999, 1e-300)
 	}
 	return l
 }
@@ -28,7 +28,7 @@ func geoLats(thorough bool) []float64 {
 func geoLons(thorough bool) []float64 {
 	l := []float64{-180, -179.999, -90, 0, 90, 179.999, 180}
 	if thorough {
-		l = append(l, -179.9999999, -135, -1e-9, 1e-9, 45, 135, 179.9999999)
+		l = append(l, -179.9999999, -179.9, -135, -45, -1e-9, 1e-9, 45, 135, 179.9, 179.9999999)
 	}
 	return l
 }
@@ -148,7 +148,7 @@ func runC15(r *rt.Run) {
 	brgs = append(brgs, 1e-9, 359.999999)
 	dists := []float64{0, 1e-3, 1, 10, 1e3, 1e5, 1e6, 5e6, 1e7, 1.5e7, 2e7, piR - 1}
 	if th {
-		dists = append(dists, 0.5, 100, 12345.678, 3e6, piR/2, piR-1000, piR-0.001)
+		dists = append(dists, 0.5, 5, 100, 12345.678, 5e4, 5e5, 3e6, 8e6, piR/2, 1.2e7, 1.8e7, piR-1000, piR-0.001)
 	}
 	r.Bounds["latitudes"] = lats
 	r.Bounds["longitudes"] = lons
